@@ -83,6 +83,64 @@ def model_and_replay(run, name, cfg, pid, pid_key, ops_file=None, seeds=None, ti
     return recs
 
 
+def shape_independence(run, name, pid_key, ops_file, table="BigTable"):
+    """Levels holding both associativities (grammar verdict Unspecified): whatever grouping the real parser uses for `x oa y ob z`, it must use
+    the same one when an operand is replaced by a tighter-binding chain or parenthesised.  TLC generates the sentences (MixSource) and judges
+    the recorded tree pairs (TraceShape)."""
+    res = tlc.run("mc/MCPratt.tla", pratt_cfg(name, lazy=False, source="MixSource", firstset="MixSet", table=table, report="EmitMix"), workers=16, timeout=1200)
+    run.tlc("M:Pratt/" + name, res)
+    if res.violation:
+        run.model_violation("Pratt/" + name, res)
+        return
+    recs = core.tlc_printed_records(res)
+    if not recs:
+        raise tlc.ToolError("Pratt/%s printed no sentences" % name)
+    path = os.path.join(tlc.WORK, "parse-replay-%s.ndjson" % name)
+    core.write_ndjson(path, recs)
+    out, _ = core.run_vh(["parse-replay", path, "--seed", run.seed, "--emit-ast"] + (["--ops-file", ops_file] if ops_file else []))
+    parsed = {o["parsed"]: o for o in out if "parsed" in o}
+    if len(parsed) != len(recs):
+        raise tlc.ToolError("parse-replay --emit-ast did not parse every sentence (%s)" % name)
+    for o in out:
+        if "mismatch" in o:      # the machine / grammar comparison of the ordinary replay leg still applies to these sentences
+            run.violation("%s/parse/replay/%s" % (pid_key, o["verdict"]), "parse_expression(%r): %s; grammar verdict %s" % (o["text"], o["why"], o["verdict"]),
+                          {"family": "parse", "ops_file": ops_file, "seed": run.seed, "record": recs[o["mismatch"]], "text": o["text"], "got_ok": o["got_ok"], "got_ast": o["got_ast"], "panic": o["panic"]})
+    base = {r["pair"]: i for i, r in enumerate(recs) if r["kind"] == 0}
+    pairs = []
+    for i, r in enumerate(recs):
+        if r["kind"] == 0:
+            continue
+        b = parsed[base[r["pair"]]]
+        v = parsed[i]
+        pairs.append({"pair": r["pair"], "kind": r["kind"], "tight": r["tight"], "base_ok": b["ok"], "base": b["ast"] if b["ok"] else [], "var_ok": v["ok"], "var": v["ast"] if v["ok"] else [],
+                      "base_text": b["text"], "var_text": v["text"], "spec_base": recs[base[r["pair"]]]["ast"], "spec_var": r["ast"]})
+    tpath = os.path.join(tlc.WORK, "shape-%s.ndjson" % name)
+    core.write_ndjson(tpath, pairs)
+    tres = tlc.run("trace/TraceShape.tla", "trace/TraceShape.cfg", workers=1, env={"TRACE": tpath}, timeout=900)
+    run.tlc("T:TraceShape/" + name, tres)
+    prs = core.tlc_printed_records(tres)
+    if not any(p.get("done") == len(pairs) for p in prs):
+        raise tlc.ToolError("TraceShape did not consume every record")
+    bad = 0
+    for p in prs:
+        if "mismatch" in p:
+            bad += 1
+            r = pairs[p["mismatch"]]
+            run.violation("%s/parse/shape" % pid_key, "grouping depends on the operand's shape: %r parses as %s but %r as %s" % (r["base_text"], json.dumps(r["base"]), r["var_text"], json.dumps(r["var"])),
+                          {"family": "shape", "ops_file": ops_file, "pair": r})
+    run.traces += len(recs)
+    run.evaluations += len(pairs)
+    run.nontrivial += len(pairs)
+    # the specification's own machine satisfies the same law (checked here on its printed trees)
+    spec_pairs = [dict(p, base_ok=True, var_ok=True, base=p["spec_base"], var=p["spec_var"]) for p in pairs]
+    spath = os.path.join(tlc.WORK, "shape-spec-%s.ndjson" % name)
+    core.write_ndjson(spath, spec_pairs)
+    sres = tlc.run("trace/TraceShape.tla", "trace/TraceShape.cfg", workers=1, env={"TRACE": spath}, timeout=900)
+    if any("mismatch" in p for p in core.tlc_printed_records(sres)):
+        run.violation("%s/model/shape" % pid_key, "the Pratt machine of the specification is itself not operand-shape independent", {"family": "model"})
+    run.leg("T:shape/" + name, sentences=len(recs), pairs=len(pairs), mismatches=bad)
+
+
 def simulate(run, maxlen=16, num=20000, depth=800, alphabet="AllAlpha"):
     """Thorough tier: random walks of the Pratt machine over the union of the alphabets with up to maxlen tokens, checked against the grammar."""
     res = tlc.run("mc/MCPratt.tla", pratt_cfg("sim", lazy=True, maxlen=maxlen, alphabet=alphabet, report="Silent"), workers=16, simulate=num, depth=depth, timeout=1800)
@@ -162,5 +220,12 @@ def replay(path, seed):
     if case["family"] == "lex":
         import lexfam
         return lexfam.replay(path, seed)
+    if case["family"] == "shape":
+        # the whole leg is a few seconds: run it again and look for the same operator pair
+        r = core.Run("C08", "quick", seed)
+        shape_independence(r, "c08-mix-replay", "C08", case.get("ops_file"))
+        again = [v for v in r.violations if v[2].get("pair", {}).get("pair") == case["pair"]["pair"]]
+        print(json.dumps({"pair": case["pair"]["pair"], "base": case["pair"]["base_text"], "variant": case["pair"]["var_text"], "still_differs": bool(again)}, indent=1))
+        return 1 if again else 0
     print("no replay for family", case["family"])
     return 2
